@@ -555,14 +555,13 @@ def compare_pair(
             longest_block_positions = block_positions
             # TODO: extend to polyploid
             if ploidy == 2:
-                if hamming(phasing0, phasing1) < hamming(phasing0[0], complement(phasing1[0])):
-                    longest_block_agreement = [
-                        1 * (p0 == p1) for p0, p1 in zip(phasing0[0], phasing1[0])
-                    ]
+                # compare the first haplotype of one phasing to both haplotypes of the other
+                # and report agreement w.r.t. the better matching correspondence
+                if hamming(phasing0[0], phasing1[0]) <= hamming(phasing0[0], phasing1[1]):
+                    other = phasing1[0]
                 else:
-                    longest_block_agreement = [
-                        1 * (p0 != p1) for p0, p1 in zip(phasing0[0], phasing1[0])
-                    ]
+                    other = phasing1[1]
+                longest_block_agreement = [1 * (p0 == p1) for p0, p1 in zip(phasing0[0], other)]
     longest_block_assessed_pairs = max(longest_block - 1, 0)
     print_stat("ALL INTERSECTION BLOCKS", "-")
     print_errors(total_errors, phased_pairs)
